@@ -121,6 +121,120 @@ def rule_g1(ctx):
                 "instead of 0", instance="Point.distance:arccosh")
 
 
+def _const_pm1(e):
+    v = const_value(e)
+    if v is None and isinstance(e, ast.UnaryOp) and isinstance(e.op, ast.USub):
+        w = const_value(e.operand)
+        v = -w if isinstance(w, (int, float)) else None
+    return v
+
+
+def _guarded_unit(e, defs, depth=0):
+    """e is clamped into [-1, 1]: np.clip(x, -1, 1), x.clip(-1, 1),
+    np.minimum(np.maximum(x, -1), 1) (either nesting)."""
+    if isinstance(e, ast.Name) and e.id in defs and depth < 5:
+        return _guarded_unit(defs[e.id], defs, depth + 1)
+    if not isinstance(e, ast.Call):
+        return False
+    n = dotted(e.func)
+    lo = hi = None
+    if n == "np.clip":
+        a = list(e.args[1:3]) + [None, None]
+        lo, hi = a[0], a[1]
+    elif isinstance(e.func, ast.Attribute) and e.func.attr == "clip":
+        a = list(e.args[0:2]) + [None, None]
+        lo, hi = a[0], a[1]
+    if n == "np.clip" or (isinstance(e.func, ast.Attribute)
+                          and e.func.attr == "clip"):
+        for k in e.keywords:
+            if k.arg in ("a_min", "min"):
+                lo = k.value
+            if k.arg in ("a_max", "max"):
+                hi = k.value
+        vl = _const_pm1(lo) if lo is not None else None
+        vh = _const_pm1(hi) if hi is not None else None
+        return vl is not None and vh is not None and vl >= -1 and vh <= 1
+    if n in ("np.minimum", "np.fmin", "min") and len(e.args) == 2:
+        for a, b in ((e.args[0], e.args[1]), (e.args[1], e.args[0])):
+            v = _const_pm1(a)
+            if v is not None and v <= 1 and _lower_unit(b, defs):
+                return True
+    if n in ("np.maximum", "np.fmax", "max") and len(e.args) == 2:
+        for a, b in ((e.args[0], e.args[1]), (e.args[1], e.args[0])):
+            v = _const_pm1(a)
+            if v is not None and v >= -1 and _upper_unit(b, defs):
+                return True
+    return False
+
+
+def _lower_unit(e, defs, depth=0):
+    if isinstance(e, ast.Name) and e.id in defs and depth < 5:
+        return _lower_unit(defs[e.id], defs, depth + 1)
+    if isinstance(e, ast.Call) and dotted(e.func) in ("np.maximum", "np.fmax",
+                                                     "max") \
+            and len(e.args) == 2:
+        return any(_const_pm1(a) is not None and _const_pm1(a) >= -1
+                   for a in e.args)
+    return False
+
+
+def _upper_unit(e, defs, depth=0):
+    if isinstance(e, ast.Name) and e.id in defs and depth < 5:
+        return _upper_unit(defs[e.id], defs, depth + 1)
+    if isinstance(e, ast.Call) and dotted(e.func) in ("np.minimum", "np.fmin",
+                                                     "min") \
+            and len(e.args) == 2:
+        return any(_const_pm1(a) is not None and _const_pm1(a) <= 1
+                   for a in e.args)
+    return False
+
+
+def rule_acos1(ctx):
+    r = ctx.r
+    r.rule("ACOS1", "the argument of np.arccos / np.arcsin on the result path "
+                 "of TangentVector.angle -- the Minkowski product of two "
+                 "unit vectors, 1 + ulp for about half of all parallel pairs "
+                 "-- is clamped into [-1, 1] by the code (np.clip(., -1, 1), "
+                 "np.minimum(np.maximum(., -1), 1))")
+    f = ctx.p.get_function(HYP, "TangentVector.angle")
+    r.analysed(f)
+    defs = single_defs(f.node)
+    sites = []
+    seen = set()
+
+    def walk(e, depth=0):
+        for n in ast.walk(e):
+            if isinstance(n, ast.Call) and dotted(n.func) in (
+                    "np.arccos", "np.arcsin") and id(n) not in seen:
+                seen.add(id(n))
+                sites.append(n)
+            if isinstance(n, ast.Name) and n.id in defs and depth < 6:
+                walk(defs[n.id], depth + 1)
+    for rt in ast.walk(f.node):
+        if isinstance(rt, ast.Return) and rt.value is not None:
+            walk(rt.value)
+    if not sites:
+        r.note("ACOS1", loc(f, f.node), "TangentVector.angle",
+               "the angle is no longer computed with np.arccos / np.arcsin; "
+               "ACOS1 has no instance")
+        return
+    for c in sites:
+        con = dotted(c)
+        if c.args and _guarded_unit(c.args[0], defs):
+            r.ok("ACOS1", f"TangentVector.angle:{dotted(c.func)}", loc(f, c),
+                 con[:120], "argument is clamped to [-1, 1]")
+        else:
+            r.violation(
+                "ACOS1", f"{f.fq}|{dotted(c.func)}", loc(f, c), con[:160],
+                f"the argument of {dotted(c.func)} is not clamped to "
+                "[-1, 1]: the product of two parallel unit tangent vectors "
+                "(a vector with itself, the tangents from p towards two "
+                "points of one ray) evaluates to 1.0000000000000002 for "
+                "about half of all inputs and the reported angle is NaN "
+                "instead of 0 (or pi): the law of cosines fails for "
+                "collinear points", instance="TangentVector.angle:arccos")
+
+
 # ---------------------------------------------------------------------------
 # D1
 
